@@ -20,26 +20,26 @@ theorem generateSegmentNonce_eq (size : Nat) (pre : Bytes) (i : Nat) (last : Boo
   · simp [hi]
   · simp only [hi, ↓reduceIte]
     congr 1
-    have hoff : Noncebased.generateSegmentNonce.offset_2 (size : Int) pre i last = ((pre.length + 4 : Nat) : Int) := by
-      simp only [Noncebased.generateSegmentNonce.offset_2, Noncebased.generateSegmentNonce.offset, len_eq]
+    have hoff : Noncebased.generateSegmentNonce.v5 (size : Int) pre i last = ((pre.length + 4 : Nat) : Int) := by
+      simp only [Noncebased.generateSegmentNonce.v5, Noncebased.generateSegmentNonce.v3, len_eq]
       rw [i64_eq (by omega) (by omega)]; omega
-    have h2 : Noncebased.generateSegmentNonce.nonce_2 (size : Int) pre i last = pre ++ Bytes.zeros (size - pre.length) := by
-      simp only [Noncebased.generateSegmentNonce.nonce_2, Noncebased.generateSegmentNonce.nonce, makeBytes_natCast]
+    have h2 : Noncebased.generateSegmentNonce.v2 (size : Int) pre i last = pre ++ Bytes.zeros (size - pre.length) := by
+      simp only [Noncebased.generateSegmentNonce.v2, Noncebased.generateSegmentNonce.v1, makeBytes_natCast]
       have := copyInto_append [] (Bytes.zeros size) pre 0 (len (Bytes.zeros size)) (by simp) (by simp)
       simp only [List.nil_append] at this
       rw [this]; simp [List.take_of_length_le (show pre.length ≤ size by omega)]
     have him : i % 4294967296 = i := Nat.mod_eq_of_lt (by omega)
-    have h3 : Noncebased.generateSegmentNonce.nonce_3 (size : Int) pre i last
+    have h3 : Noncebased.generateSegmentNonce.v4 (size : Int) pre i last
         = (pre ++ Bytes.be32 i) ++ Bytes.zeros (size - pre.length - 4) := by
-      simp only [Noncebased.generateSegmentNonce.nonce_3, Noncebased.generateSegmentNonce.offset, h2, him]
+      simp only [Noncebased.generateSegmentNonce.v4, Noncebased.generateSegmentNonce.v3, h2, him]
       rw [putBE_append 4 pre _ _ _ i (by simp) (by simp; omega) (by simp)]
       simp [Bytes.be32]
-    have h4 : Noncebased.generateSegmentNonce.nonce_4 (size : Int) pre i last
+    have h4 : Noncebased.generateSegmentNonce.v6 (size : Int) pre i last
         = (pre ++ Bytes.be32 i) ++ 1 :: Bytes.zeros (size - pre.length - 5) := by
-      simp only [Noncebased.generateSegmentNonce.nonce_4, hoff, h3]
+      simp only [Noncebased.generateSegmentNonce.v6, hoff, h3]
       rw [setAt_append _ _ _ _ (by simp [Bytes.be32]) (by simp; omega)]
       simp only [drop_zeros, Nat.sub_sub]
-    simp only [Noncebased.generateSegmentNonce.nonce_5, h3, h4]
+    simp only [Noncebased.generateSegmentNonce.v7, h3, h4]
     clear hoff h2 h3 h4
     cases last <;> simp [Bytes.be32]
     · have e : size - pre.length - 4 = (size - (pre.length + 5)) + 1 := by omega
